@@ -52,12 +52,12 @@ def evalView (s : DState) (view : String) : String :=
         | none => "bad-op"
       | "ties" =>
         match mkCtx s Quirks.none with
-        | some (c, w) => if hasTie c w.grid e || joinTie c false e then "1" else "0"
+        | some (c, w) => if hasTie c w.grid e || joinTie c false e || hasTieEng c w.grid e then "1" else "0"
         | none => "bad-op"
       | "tiesp" =>
         -- ties when the order of the series is not the storage's (permuted, sharded, remote)
         match mkCtx s Quirks.none with
-        | some (c, w) => if hasTie c w.grid e || joinTie c true e then "1" else "0"
+        | some (c, w) => if hasTie c w.grid e || joinTie c true e || hasTieEng c w.grid e then "1" else "0"
         | none => "bad-op"
       | "siteok" => if siteOk e then "1" else "0"
       | "hints" => String.intercalate ";" ((engHints Hint.empty e).map showHint)
